@@ -210,7 +210,9 @@ def run_case(case):
                 break
         if mine and len(mine) != len(want_frames):
             res.fail("C14/frame-count", "%d frames on air for a %d byte message, expected %d" % (len(mine), len(msg), len(want_frames)))
-    acks = [e for e in net.med.log if e["ack"]]
+    # radio ACKs that answer a frame of the multicasting node (a racing unicast of another node is acknowledged, rightly)
+    by_n = {e["n"]: e for e in net.med.log}
+    acks = [e for e in net.med.log if e["ack"] and (e.get("ack_of") not in by_n or by_n[e["ack_of"]]["src"] == str(snd))]
     if acks:
         res.fail("C14/multicast-acknowledged", "node %s sent a radio ACK for a multicast" % acks[0]["src"])
     if box["result"] is not True:
@@ -388,6 +390,9 @@ def _enum_racing(step):
                 nodes = [{"addr": a, "kind": "net", "mc": True, "mcu": {"spi": 20, "jit": 0, "seed": 3, "poll": poll} if a == 0o2 else None} for a in pop]
                 for msg in ("6d63", "55" * 30):
                     yield {"nodes": nodes, "sender": 0, "level": 1, "type": 1, "msg": msg, "racing_writes": [[0o2, 0o42, lead]]}
+                # the member's child writes to the member around the same moment: the multicast and a unicast on another
+                # pipe sit in the member's RX FIFO together before its application gets round to update()
+                yield {"nodes": nodes, "sender": 0, "level": 1, "type": 1, "msg": "6d63", "racing_writes": [[0o12, 0o2, lead]]}
     return gen
 
 
